@@ -148,9 +148,12 @@ def body_after_traffic(rep, case):
         rig = udptx.Rig(2)
         await rig.start()
         try:
-            for i, code in enumerate(refb.MODELS):
-                await rig.send(rig.ports[i % 2], refb.encode(valid_fields(code, f"{i + 1:06x}", case.get("seed", 0))))
-            await rig.barrier()
+            try:
+                for i, code in enumerate(refb.MODELS):
+                    await rig.send(rig.ports[i % 2], refb.encode(valid_fields(code, f"{i + 1:06x}", case.get("seed", 0))))
+                await rig.barrier()
+            except udptx.DeliveryStopped:
+                pass            # a deaf bridge is C07's business; here only the tables matter
             return len(rig.callbacks)
         finally:
             await rig.stop()
